@@ -76,6 +76,9 @@ pub enum EndState {
 #[derive(Clone, Debug, Serialize, Deserialize)]
 pub struct RunResult {
     pub end: EndState,
+    /// the client script that was executed
+    #[serde(default)]
+    pub ops: Vec<ClientOp>,
     pub outs: Vec<Out>,
     /// canonical per-process results at the end, keyed by spawn path
     pub procs: BTreeMap<String, String>,
@@ -222,6 +225,7 @@ pub fn execute(spec: &RunSpec, monitor: &mut dyn Monitor, keep_log: bool) -> Run
     }
     RunResult {
         end,
+        ops: spec.ops.clone(),
         outs: client.outs.clone(),
         procs,
         violations,
